@@ -496,3 +496,36 @@ def concat_pieces(r, here, src_tag):
             cls = "?"
         return (repr(ln) if ln is not None else None, cls)
     return [piece(v) for v in cats[0].args[0].items], cats[0]
+
+
+def sibling_defaults(chk, rule, quals, neutral=None, label=None):
+    """Entry points that are documented / stated to agree must agree when called with their options left out: same-named parameters of the
+    siblings have the same default.  `neutral`: parameter -> the default that makes the option a no-op, where the property pins it
+    (a multiplicative factor of 1, a switch that is off)."""
+    P = chk.P
+    sig_ = {}
+    for q in quals:
+        fi = P.functions.get(q) or P.fn(q)
+        d = {}
+        for pname, dv in fi.defaults.items():
+            try:
+                d[pname] = ast.literal_eval(dv)
+            except Exception:
+                d[pname] = " ".join(ast.unparse(dv).split())
+        sig_[q] = (fi, d)
+    names = sorted({k for _, d in sig_.values() for k in d})
+    for pn in names:
+        have = {q: d[pn] for q, (fi, d) in sig_.items() if pn in d}
+        if len(have) < 2 and not (neutral and pn in neutral):
+            continue
+        def canon_(v):            # 1 and 1.0 are the same default
+            return repr(float(v)) if isinstance(v, (int, float)) and not isinstance(v, bool) else repr(v)
+        vals = set(canon_(v) for v in have.values())
+        ok = len(vals) == 1
+        if ok and neutral and pn in neutral:
+            v0 = next(iter(have.values()))
+            ok = v0 == neutral[pn] and type(v0) in (type(neutral[pn]), float, int, bool)
+        first = sig_[sorted(have)[0]][0]
+        chk.ob(rule, "%s{default %s}" % (label or "~".join(q.split(".")[-1] for q in quals), pn),
+               "the siblings have the same default for `%s`%s" % (pn, (" (the neutral value %r)" % (neutral[pn],)) if neutral and pn in neutral else ""), ok,
+               derived="; ".join("%s: %r" % (q.split(".")[-1], v) for q, v in sorted(have.items())), loc=first.loc())
